@@ -26,9 +26,21 @@ import (
 	"time"
 )
 
+// verifDir and repoDir can be redirected (VERIF_DIR, VERIF_REPO) so that a
+// background run can work from snapshots; the registered checks use the defaults.
+var (
+	verifDir = envOr("VERIF_DIR", "/verif")
+	repoDir  = envOr("VERIF_REPO", "/repo")
+)
+
+func envOr(k, d string) string {
+	if v := os.Getenv(k); v != "" {
+		return v
+	}
+	return d
+}
+
 const (
-	verifDir = "/verif"
-	repoDir  = "/repo"
 	instrPkg = "clone,io/fasta,io/uniprot,transform/codon,random"
 	fullFns  = "Optimize,OptimizeTable,ProteinSequence,getConstructs,recurseLigate,CircularLigate,ParseConcurrent,Parse,Read,GetCodonTable"
 )
@@ -303,6 +315,13 @@ func main() {
 	openIDs := map[string]bool{}
 	for id := range open {
 		openIDs[id] = true
+	}
+	if tier == "thorough" && *replay == "" {
+		out, err := run(verifDir, os.Environ(), filepath.Join(verifDir, "bin", "idle-selftest"))
+		fmt.Print(out)
+		if err != nil {
+			die(2, "idle-instrumentation self-test failed: the instrumented copy of /repo does not pass poly's own suite")
+		}
 	}
 	bin := buildHarness(prop)
 	defer cleanup()
